@@ -134,6 +134,41 @@ SubCol(sc, a, b) ==
                                   THEN SubSeq(sc.lens[k], SlotsBefore(sc, k, a) + 1, SlotsBefore(sc, k, b + 1))
                                   ELSE <<>>]]
 
+\* The column repeated n times (the n-fold concatenation of its row sequence).  Files that span
+\* several mini-block chunks are made by tiling a small column; row r (0-based) of Tile(sc, n) is row
+\* (r % Rows(sc)) + 1 of sc.
+RECURSIVE Tile(_, _)
+Tile(sc, n) == IF n = 1 THEN sc
+               ELSE LET t == Tile(sc, n - 1) IN
+                    [kinds |-> sc.kinds, hasv |-> sc.hasv,
+                     v    |-> [k \in 1..NL(sc) |-> t.v[k] \o sc.v[k]],
+                     lens |-> [k \in 1..NL(sc) |-> t.lens[k] \o sc.lens[k]]]
+
+\* Directed columns for the tiled file cases: rows of 5..7 items so that, tiled, rows straddle
+\* mini-block chunk boundaries with nulls among the spilled items (nullable items, null structs
+\* under a list, a null struct above a list, nested lists) and one control without any null.
+DirectedCols == {
+  \* list<int?>: [7 items], null list hiding 3 garbage items, [5 items], [], [6 items]
+  [kinds |-> <<"L", "I">>, hasv |-> <<TRUE, TRUE>>,
+   v |-> << <<1,0,1,1,1>>, <<1,0,1,1,0,1,1, 0,1,0,1,0, 1,1,1,1,1,0>> >>,
+   lens |-> << <<7,3,5,0,6>>, <<>> >>],
+  \* control: list<int> without any validity buffer
+  [kinds |-> <<"L", "I">>, hasv |-> <<FALSE, FALSE>>,
+   v |-> << <<1,1,1>>, <<1,1,1,1,1,1,1, 1,1,1,1,1, 1,1,1,1,1,1>> >>,
+   lens |-> << <<7,5,6>>, <<>> >>],
+  \* list<struct?<int?>>: null structs and null items under the list
+  [kinds |-> <<"L", "S", "I">>, hasv |-> <<FALSE, TRUE, TRUE>>,
+   v |-> << <<1,1>>, <<1,0,1,1,0, 0,1,1,0,1,1,0>>, <<1,1,0,1,1, 1,0,1,1,1,0,1>> >>,
+   lens |-> << <<5,7>>, <<>>, <<>> >>],
+  \* struct?<list<int?>>: a null struct above the list, a null list hiding garbage
+  [kinds |-> <<"S", "L", "I">>, hasv |-> <<TRUE, TRUE, TRUE>>,
+   v |-> << <<1,0,1,1>>, <<1,0,1,0>>, <<1,0,0,1,1,0, 0,1,1,1,0,1,1>> >>,
+   lens |-> << <<>>, <<6,0,7,2>>, <<>> >>],
+  \* list<list<int?>>
+  [kinds |-> <<"L", "L", "I">>, hasv |-> <<FALSE, TRUE, TRUE>>,
+   v |-> << <<1,1,1>>, <<1,1,1,0,1>>, <<1,0,1, 0,1,1,0, 1,1,0,1,1>> >>,
+   lens |-> << <<2,1,2>>, <<3,4,5,1,0>>, <<>> >>] }
+
 NullNode == [n |-> TRUE, c |-> <<>>]
 RECURSIVE Node(_, _, _)
 Node(sc, k, j) ==
